@@ -2,7 +2,7 @@
 From Coq Require Import ZArith List Bool Lia Sorted.
 Import ListNotations.
 From Verif Require Import Lib.Corr Lib.Downsample_Core Lib.Downsample_Batch Lib.Downsample_Raw
-  Lib.Downsample_Windows Lib.Downsample_Aggr Gen.C38 Model.C38.
+  Lib.Downsample_Windows Lib.Downsample_Aggr Lib.Downsample_Iter Gen.C38 Model.C38.
 Open Scope Z_scope.
 
 Ltac Zify.zify_post_hook ::= Z.to_euclidean_division_equations.
@@ -346,4 +346,51 @@ Proof.
   cbn [andb].
   destruct (min_list (map snd (series k_min ins))), (max_list (map snd (series k_max ins)));
     cbn [option_eqb]; rewrite ?Z.eqb_refl; reflexivity.
+Qed.
+
+(* ---- termination for batch size >= 1 ---- *)
+
+Lemma float_aggr_batch_total res part : float_aggr_batch cw res part <> None.
+Proof.
+  unfold float_aggr_batch.
+  destruct (generic_aggregate cw k_count a_sum res part) as [[m1 x1] cnt].
+  destruct (generic_aggregate cw k_sum a_sum res part) as [[m2 x2] sm].
+  destruct (generic_aggregate cw k_min (fun a => oz (a_min a)) res part) as [[m3 x3] mn].
+  destruct (generic_aggregate cw k_max (fun a => oz (a_max a)) res part) as [[m4 x4] mx].
+  pose proof (Lib.Downsample_Iter.acr_run_total _ (toks_of (present k_counter part)) acr0 (le_n _)) as T.
+  destruct (acr_run _ _ acr0) as [[emitted fin]|]; [|congruence].
+  destruct (expand_xor 0 emitted) as [|first rest]; [discriminate|].
+  destruct (downsample_batch cw res (first :: rest)). discriminate.
+Qed.
+
+Lemma aggr_loop_total res bs : (1 <= bs)%nat -> forall fuel chks,
+  (length chks <= fuel)%nat -> aggr_loop cw fuel res bs chks <> None.
+Proof.
+  intros Hb. induction fuel as [|f IH]; intros chks Hl.
+  - destruct chks; [discriminate|cbn in Hl; lia].
+  - destruct chks as [|k r]; [discriminate|]. cbn [aggr_loop].
+    set (j := Nat.min bs (length (k :: r))).
+    pose proof (float_aggr_batch_total res (firstn j (k :: r))) as T.
+    destruct (float_aggr_batch cw res (firstn j (k :: r))) as [kk|]; [|congruence].
+    assert (Hj : (1 <= j)%nat) by (unfold j; cbn [length]; lia).
+    assert (Hs : (length (skipn j (k :: r)) <= f)%nat) by (rewrite skipn_length; cbn [length] in *; lia).
+    specialize (IH _ Hs). destruct (aggr_loop cw f res bs (skipn j (k :: r))); [discriminate|congruence].
+Qed.
+
+Lemma aggr_terminates res nc ins :
+  (1 <= length ins / nc)%nat -> exists out, downsample_aggr_m res nc ins = Some out.
+Proof.
+  intros H. unfold downsample_aggr_m, downsample_aggr.
+  pose proof (aggr_loop_total res _ H (length ins) ins (le_n _)) as T.
+  destruct (aggr_loop cw (length ins) res (length ins / nc) ins) as [out|]; [eexists; reflexivity|congruence].
+Qed.
+
+Lemma pred_total res nc ins :
+  valid_input res nc ins = true ->
+  exists out, downsample_aggr_m res nc ins = Some out /\ pred_ok (CAggr res nc ins out) = true.
+Proof.
+  intros V. assert (H : (1 <= length ins / nc)%nat).
+  { unfold valid_input in V. do 4 (apply andb_true_iff in V as [V _]).
+    apply andb_true_iff in V as [_ V]. apply Nat.leb_le. exact V. }
+  destruct (aggr_terminates res nc ins H) as [out E]. exists out. split; [exact E|apply pred_holds; exact E].
 Qed.
